@@ -40,6 +40,82 @@ CLAIMED = {
              "specified on; LinearProgramExtractor.extract_* and the LPData assembly are not yet under contract (listed in evidence); "
              "known findings D9, D10, D11, D12",
         design="6 C05"),
+    "C06": dict(
+        text="solve_scipy and solve_lp are symbolically executed for every method class and every outcome of the external solver "
+             "(pinned per spec case: raises Exception / BaseException-only, success, failure with each message class / status code); "
+             "status OPTIMAL is proved to imply the feasibility-loop invariant (no constraint beyond the code's own tolerance) and the "
+             "bounds clause of the external contract; linprog's status map is proved injective.",
+        note="A3 external contracts of scipy.optimize.minimize/linprog (result object arbitrary; success+bounds passed => within "
+             "bounds; fun = objective(x); linprog success => feasible for the arrays passed); C05 for the LP arrays; "
+             "_build_solver_cache / LinearProgramExtractor.extract are contract-only (bounded); known findings D13, D14",
+        design="6 C06"),
+    "C07": dict(
+        text="On every returning path of both drivers the reported objective value is proved equal to the objective expression's "
+             "denotation at the returned point in the user's orientation, and the values dict is proved to hold exactly one entry "
+             "per problem variable at the right position (loop invariant over the variable list).",
+        note="A3 (fun = objective callable at x); C01/C05 contracts for the compiled objective / cost vector; Solution.__getitem__ "
+             "accessors not yet under contract; known findings D15 (+ D9, D10 through the constant term)",
+        design="6 C07"),
+    "C08": dict(
+        text="Wiring obligations at the linprog call site of the real solve_lp: cost vector negated iff maximise, A_ub/b_ub/A_eq/b_eq/"
+             "bounds passed unchanged exactly when present, method passed through, status map, objective un-negation, LP cache "
+             "reuse; together with C05 (data = model) the optyx verdict is that of the LP solver on the model's arrays.",
+        note="A3 determinism of linprog on identical arrays; no second formulation is solved (DESIGN.md section 8); "
+             "LinearProgramExtractor.extract contract-only (bounded)",
+        design="6 C08"),
+    "C09": dict(
+        text="Wiring obligations at the minimize call site of the real solve_scipy for every method class: fun is the sign-adjusted "
+             "objective, jac its gradient in variable order (None exactly for derivative-free methods), hess exactly for the Hessian "
+             "methods, bounds exactly for the bounds methods, constraints = cached SciPy list, x0/method/tol passed through; "
+             "_compute_initial_point proved inside the bounds; _auto_select_method never picks a bounds-only method with constraints.",
+        note="convergence clause (raw SciPy converges => optyx OPTIMAL) is assumption A3' (DESIGN.md section 8), not decided; "
+             "_build_solver_cache, compile_jacobian, compile_hessian are contract-only (bounded) at this point",
+        design="6 C09"),
+    "C13": dict(
+        text="Data-structure invariant over the four caches: every mutator (minimize, maximize, subject_to, _invalidate_caches, "
+             "__init__) is proved to reset all four caches and to change only the intended model field; every filling site "
+             "(variables, _is_linear_problem, _lp_cache, _solver_cache) is proved to store what a fresh computation gives for the "
+             "current model; drivers leave the model untouched on every exit.",
+        note="external bound writes v.lb/v.ub := b (D17) are not yet an obligation; is_linear treated as a deterministic function of "
+             "the tree; known findings D20, D23",
+        design="6 C13"),
+    "C16": dict(
+        text="get_variables of every node kind (and the virtual contract used for dynamic dispatch), Constraint.get_variables, "
+             "get_all_variables and Problem.variables are proved: the returned list has exactly the names occurring in objective and "
+             "constraints (membership at an arbitrary name), one entry per name, natural order, on both arms of the shortcut; "
+             "get_bounds / n_variables follow that list.",
+        note="sorted() modelled (A4); natural order is a predicate established by sorted(key=_natural_sort_key) only; the two worklist "
+             "helpers (_try_get_single_vector_source, _get_variables_iterative) are contract-only (bounded); known finding D20",
+        design="6 C16"),
+    "C18": dict(
+        text="Path obligations in both drivers: on every path reaching the external solver call, not (strict and some non-continuous "
+             "variable); without strict a warning whose text is joined from exactly the filtered variable list was emitted before "
+             "the call; IntegerVariableError carries exactly those names and is raised only under strict.",
+        note="Variable.__init__ binary-bounds invariant and the view constructors are not yet under contract",
+        design="6 C18"),
+    "C20": dict(
+        text="Fault mode: the external solver call may raise an arbitrary exception object (Exception-derived or BaseException-only); "
+             "on every exit of solve_scipy warnings.showwarning is proved to be the entry object, no other process-global is "
+             "written, the model is untouched and each cache is either untouched or assigned a completely built value; a raised "
+             "Exception yields a FAILED Solution.",
+        note="faults inside callbacks are faults of the external call (they propagate through it); increased_recursion_limit not yet "
+             "under contract",
+        design="6 C20"),
+    "C12": dict(
+        text="P1: every closure returned by the compiler is proved against the parameter store at call time (store havocked between "
+             "build and call); P2: every gradient-family contract is stated and proved at an arbitrary parameter valuation unrelated "
+             "to the store at build time; P3: Parameter is never polynomial for the degree routine; P4: Parameter.set writes only "
+             "that parameter's value.",
+        note="history quantifier handled by invariant (each operation preserves 'cached artefacts are heap-parametric'); D16 (two "
+             "Parameter objects with one name through the compile cache) belongs to C14",
+        design="6 C12"),
+    "C10": dict(
+        text="_make_constraint (all operand kinds), Constraint.evaluate/violation/is_satisfied and the element-wise vector constraint "
+             "helper are proved: normalised expression = lhs - rhs, sense kept, violation formula per sense, one constraint per "
+             "element in order, size mismatch raises (iff).",
+        note="_matrix_constraint (nested loops) and the SciPy constraint dicts of _build_solver_cache are not yet under proof; NumPy "
+             "scalar on the left is outside the class table (bounded)",
+        design="6 C10"),
 }
 
 NOT_YET = "check not built yet (work in progress; see DESIGN.md section 6 for the plan)"
